@@ -141,7 +141,12 @@ def main(mod, argv=None):
     # 2. correspondence + oracle on the real code ---------------------------------------------
     C.use_repo()
     rng = random.Random(seed * 1000003 + 17)
-    cases = list(mod.cases(rng, tier))
+    # a changed anchored source file is never a verdict by itself; it escalates the generator of this run
+    changed = C.changed_anchor_files(prop)
+    gen_tier = tier
+    if changed and tier == "quick" and os.environ.get("VERIF_NO_ESCALATE") != "1":
+        gen_tier = getattr(mod, "ESCALATED_TIER", "thorough")
+    cases = list(mod.cases(rng, gen_tier))
     results = run_python_all(mod, cases, args.procs)
     harness_errors = [(i, r) for i, r in enumerate(results) if "harness_error" in r]
     model = C.LeanModel()
@@ -254,6 +259,8 @@ def main(mod, argv=None):
         },
         "generator_distribution": stats.dump(),
         "exhaustive": bool(getattr(mod, "EXHAUSTIVE", {}).get(tier, False)),
+        "anchored_sources_changed_since_integration": changed,
+        "generator_tier_used": gen_tier,
         "proof_problems": proof_problems[:10],
     }
     C.write_evidence(prop, tier, seed, coverage, list(mod.ASSUMPTIONS), time.time() - t0, violations)
